@@ -84,8 +84,8 @@ def nest(rng, d):
 def frag_stmt(rng, depth, closed=False):
     """a random statement of the fragment of Model/Fragment.v (without its `;`):
     ('s',) | ('a',) | ('b', stmts) | ('r', stmts) | ('t', stmts, stmts) | ('x', stmts, stmts) | ('i', stmt) | ('e', stmt, stmt)
-    | ('w', stmt) | ('c', [stmt...], None | stmts); closed: must not end in an if without else"""
-    c = rng.randrange(16)
+    | ('w', stmt) | ('c', [stmt...], None | stmts) | ('h', stmts, [stmt...]) (try/except with `on` handlers); closed: must not end in an if without else"""
+    c = rng.randrange(18)
     deep = depth >= 6
     if c == 0 and not deep: return ('b', frag_tree(rng, depth + 1))
     if c == 1 and not deep: return ('r', frag_tree(rng, depth + 1))
@@ -97,6 +97,7 @@ def frag_stmt(rng, depth, closed=False):
     if c == 7 and not deep: return ('w', frag_stmt(rng, depth + 1, closed))
     if c == 8 and not deep:
         return ('c', [frag_stmt(rng, depth + 1) for _ in range(rng.randrange(0, 4))], None if rng.randrange(2) else frag_tree(rng, depth + 1))
+    if c == 9 and not deep: return ('h', frag_tree(rng, depth + 1), [frag_stmt(rng, depth + 1) for _ in range(rng.randrange(0, 3))])
     return ('s',)
 def frag_tree(rng, depth=0):
     return [frag_stmt(rng, depth) for _ in range(rng.randrange(0, 5 if depth < 3 else 2))]
@@ -111,6 +112,10 @@ def frag_stmt_text(t, rng, ind):
     if k in ('t', 'x'):
         return ("try" + sp() + frag_text(t[1], rng, ind + 1) + sp() + pad + ("finally" if k == 't' else "except") + sp()
                 + frag_text(t[2], rng, ind + 1) + sp() + pad + "end")
+    if k == 'h':
+        txt = "try" + sp() + frag_text(t[1], rng, ind + 1) + sp() + pad + "except" + sp()
+        for b in t[2]: txt += pad + "on E" + rng.choice([":", " :", ": "]) + " Exception do" + sp() + frag_stmt_text(b, rng, ind + 1) + ";" + sp()
+        return txt + pad + "end"
     if k == 'i': return "if Cond then" + sp() + frag_stmt_text(t[1], rng, ind + 1)
     if k == 'e': return "if Cond then" + sp() + frag_stmt_text(t[1], rng, ind + 1) + sp() + pad + "else" + sp() + frag_stmt_text(t[2], rng, ind + 1)
     if k == 'w': return "while Cond do" + sp() + frag_stmt_text(t[1], rng, ind + 1)
@@ -128,6 +133,7 @@ def frag_stmt_len(t):
     if k == 'b': return 2 + frag_len(t[1])
     if k == 'r': return 3 + frag_len(t[1])
     if k in ('t', 'x'): return 3 + frag_len(t[1]) + frag_len(t[2])
+    if k == 'h': return 3 + frag_len(t[1]) + sum(6 + frag_stmt_len(b) for b in t[2])
     if k in ('i', 'w'): return 3 + frag_stmt_len(t[1])
     if k == 'e': return 4 + frag_stmt_len(t[1]) + frag_stmt_len(t[2])
     return 4 + sum(3 + frag_stmt_len(b) for b in t[1]) + (0 if t[2] is None else 1 + frag_len(t[2]))
@@ -150,6 +156,14 @@ def frag_stmt_expected(t, d, k, sm, out, par):
     if kd in ('t', 'x'):
         out.append((lv(d), par, [k])); k = frag_expected(t[1], d + 1, k + 1, out, par)
         out.append((lv(d), par, [k])); k = frag_expected(t[2], d + 1, k + 1, out, par)
+        out.append((lv(d), par, [k] + sm)); return k + 1
+    if kd == 'h':
+        out.append((lv(d), par, [k])); k = frag_expected(t[1], d + 1, k + 1, out, par)
+        out.append((lv(d), par, [k])); k += 1
+        for b in t[2]:
+            h = len(out); out.append((lv(d + 1), par, [k, k + 1, k + 2, k + 3, k + 4]))
+            e = k + 5 + frag_stmt_len(b)
+            frag_stmt_expected(b, 1, k + 5, [e], out, (h, k + 4)); k = e + 1
         out.append((lv(d), par, [k] + sm)); return k + 1
     if kd in ('i', 'w'):
         h = len(out); out.append((lv(d), par, [k, k + 1, k + 2]))
